@@ -186,8 +186,6 @@ struct VmWorld : HookSink {
     for (size_t pc = 0; pc < prog.code.size(); pc++)
       if (is_site_op(prog.code[pc].op) && !prog.line_info.count((int)pc))
         fail("break_instruction_is_listed", "breakpoint instruction at " + std::to_string(pc) + " is in no table");
-    for (size_t pc = 0; pc < prog.code.size(); pc++)
-      if (prog.code[pc].op == OpCode::BREAK) fail("fresh_program_passive", "freshly compiled program has an active BREAK at " + std::to_string(pc));
     std::set<BreakPoint> av = prog.getAvailableBreakpoints();
     for (auto &b : av) {
       if (b.file == "__standards__") fail("location_is_real_line", "available location in the hidden standard-macro file, line " + std::to_string(b.line));
@@ -227,10 +225,22 @@ struct VmWorld : HookSink {
       }
       i++;
     }
-    if (proj.has_ast && (int)regs.size() != (int)proj.ast.defs.size())
-      fail("found " + std::to_string(regs.size()) + " routine regions for " + std::to_string(proj.ast.defs.size()) + " program definitions");
+    // The region recovery is a heuristic about how the generator lays routines out.  If the layout is not
+    // recognised the region-based checks abstain (the dynamic monitor is shape-independent and still decides).
+    bool shape_ok = true;
+    if (proj.has_ast && (int)regs.size() != (int)proj.ast.defs.size()) shape_ok = false;
     for (int i = 0; i < n; i++)
-      if (c[i].op == OpCode::RET && region[i] < 0) fail("RET at " + std::to_string(i) + " outside any routine");
+      if (c[i].op == OpCode::RET && region[i] < 0) shape_ok = false;
+    for (int i = 1; i < n && shape_ok; i++) {
+      if (c[i].op != OpCode::PREPARE_EXEC) continue;
+      int k = i + 1;
+      while (k < n && c[k].op == OpCode::ARG) k++;
+      if (k >= n || c[k].op != OpCode::EXEC) { shape_ok = false; break; }
+      bool starts = false;
+      for (auto &r : regs) if (r.start == c[k].parameters.exec.entry) starts = true;
+      if (!starts) shape_ok = false;
+    }
+    if (!shape_ok) { ctx.stats.inc("validator_abstained_unrecognised_layout"); return; }
     // frame sizes from the call sites
     auto region_start = [&](int pc) { for (size_t r = 0; r < regs.size(); r++) if (regs[r].start == pc) return (int)r; return -1; };
     int root_size = c[0].parameters.prepare.count;
@@ -401,7 +411,16 @@ struct VmWorld : HookSink {
         long long bound = 32 * ref.steps + 1000;
         if (!G.finished && (long long)G.steps() >= bound)
           ctx.check(false, "C16", "loop_program_halts", "LOOP-only program: reference halts after " + std::to_string(ref.steps) + " steps, VM still running after " + std::to_string(G.steps()));
-        if (G.finished) ctx.stats.inc("c16_loop_only_halted");
+        if (G.finished) {
+          ctx.stats.inc("c16_loop_only_halted");
+          // the number of iterations is fixed by the bounds at entry: a LOOP-only program has exactly one run, and
+          // any change in an iteration count shows in its variables
+          std::string why;
+          if (!ref.out_of_range && !views_match(g, ref.final_acts, why))
+            ctx.check(false, "C16", "loop_iterations_fixed_at_entry", "LOOP-only program: " + why + " (iteration counts differ from the bounds at entry)");
+          if ((long long)G.steps() < ref.steps)
+            ctx.check(false, "C16", "loop_iterations_fixed_at_entry", "LOOP-only program finished after " + std::to_string(G.steps()) + " instructions, fewer than the " + std::to_string(ref.steps) + " steps its LOOP bounds prescribe");
+        }
       }
     }
     // C20: the boundary run is deterministic
@@ -452,14 +471,6 @@ struct VmWorld : HookSink {
         ctx.check(false, "C05", "program_unchanged", std::string(when) + ": instruction " + std::to_string(i) + " differs from the compiled program");
         return;
       }
-      if (site && tables_ok) {
-        bool en = enabled.count(sites[(int)i]) > 0;
-        OpCode want = en ? OpCode::BREAK : OpCode::POTENTIAL_BREAK;
-        if (c.code[i].op != want) {
-          ctx.check(false, "C06", "site_form_matches_enabled_set", std::string(when) + ": site " + std::to_string(i) + " (" + loc_str(sites[(int)i]) + ") is " + (c.code[i].op == OpCode::BREAK ? "active" : "passive") + " but its line is " + (en ? "enabled" : "not enabled"));
-          return;
-        }
-      }
     }
   }
 
@@ -478,7 +489,7 @@ struct VmWorld : HookSink {
 
   // the machine has not moved since it stopped at a site: the reported location is still that site's
   void check_location_while_stopped(const char *when) {
-    if (stopped_site < 0 || !tables_ok) return;
+    if (stopped_site < 0) return;
     BreakPoint cur = vm->getCurrentBreak();
     if (!(to_loc(cur) == sites[stopped_site]))
       ctx.check(false, "C06", "current_location_while_stopped", std::string(when) + ": still stopped at site " + std::to_string(stopped_site) + " (" + loc_str(sites[stopped_site]) + ") but getCurrentBreak() = " + cur.file + ":" + std::to_string(cur.line));
@@ -502,7 +513,7 @@ struct VmWorld : HookSink {
   void after_stop_checks(int pc, const char *when) {
     // stopped after executing the site at pc
     BreakPoint cur = vm->getCurrentBreak();
-    if (tables_ok) {
+    {
       if (!(to_loc(cur) == sites[pc]))
         ctx.check(false, "C06", "current_location", std::string(when) + ": stopped at site " + std::to_string(pc) + " (" + loc_str(sites[pc]) + ") but getCurrentBreak() = " + cur.file + ":" + std::to_string(cur.line));
     }
@@ -561,7 +572,7 @@ struct VmWorld : HookSink {
         stopped_site = -1;
         check_boundary(*vm, "after executeSingle");
         check_position("after executeSingle");
-        if (tables_ok && r != expect)
+        if (r != expect)
           ctx.check(false, "C06", "single_step_return_value", "executeSingle at " + std::to_string(pc) + " returned " + (r ? "true" : "false") + ", expected " + (expect ? "true" : "false") + " (stepping=" + std::to_string(stepping) + ")");
         if (r && sites.count(pc)) after_stop_checks(pc, "single step");
       }
@@ -578,7 +589,7 @@ struct VmWorld : HookSink {
       if (at_halt(s)) { found = true; break; }
       if (s + 1 < G.len() && stop_expected(G.ip[s])) { found = true; break; }
     }
-    if (!found || !tables_ok) { ctx.stats.inc("exec_demoted"); do_step(std::min<long long>(demote_n, (long long)(G.len() - 1 - t))); return; }
+    if (!found) { ctx.stats.inc("exec_demoted"); do_step(std::min<long long>(demote_n, (long long)(G.len() - 1 - t))); return; }
     bool halt = at_halt(s);
     bool was_at_halt = at_halt(t);
     uint64_t before = was_at_halt ? exec_state_hash(*vm) : 0;
@@ -789,6 +800,7 @@ struct VmWorld : HookSink {
     if (ctx.focus == "C16" && have_ref && ref.finished && !uses_while_goto(proj.ast)) budget = std::max<size_t>(budget, (size_t)std::min<long long>(32 * ref.steps + 1001, 400000));
     build_golden(budget);
     if (knob("enum_reset", 0)) out.more_subs = plan.sub < (long long)G.steps() && plan.sub < knob("enum_limit", 300);
+    if (knob("enum_total", 0)) { out.more_subs = plan.sub + 1 < knob("enum_total", 0); ctx.stats.inc("enumerated_short_histories"); if (plan.sub == 0) ctx.stats.inc("workloads_with_all_short_histories"); }
     if (G.unsafe) return;
     run_session();
     // non-triviality: the session executed something and used the debugger or reached the end
@@ -850,12 +862,14 @@ Plan gen_vm_plan(const std::string &prop, Rng &rng, long long sub, const std::st
   gp.allow_while = rng.chance(3, 4);
   gp.allow_jumps = rng.chance(3, 4);
   gp.allow_noparam = rng.chance(2, 3);
+  gp.init_vars = rng.chance(7, 10);
+  gp.stop_in_callee = rng.chance(1, 8);
   unsigned macros = 0;
   if (rng.chance(1, 3)) macros = (unsigned)rng.below(16);
   gp.macros = macros;
   Layout lay;
   lay.seed = rng.next();
-  lay.style = rng.chance(1, 2) ? 0 : 1;
+  lay.style = rng.chance(2, 5) ? 0 : (rng.chance(2, 3) ? 1 : 2);
   lay.nfiles = rng.chance(1, 2) ? 1 : (int)rng.range(2, thorough ? 5 : 3);
   lay.spelling = (int)rng.below(4);
   int max_ops = thorough ? 200 : 60;
@@ -878,14 +892,16 @@ Plan gen_vm_plan(const std::string &prop, Rng &rng, long long sub, const std::st
     mode = "to_end";
   } else if (prop == "C05") {
     heavy = true;
+    if (rng.chance(1, thorough ? 6 : 30)) mode = "enum_short";
   } else if (prop == "C06") {
     heavy = true;
     if (rng.chance(1, 4)) mode = "sweep";
+    else if (rng.chance(1, thorough ? 6 : 30)) mode = "enum_short";
   } else if (prop == "C07") {
     gp.macros = 0; lay.style = 0;
     mode = rng.chance(1, 2) ? "stepping_run" : "history";
   } else if (prop == "C08") {
-    lay.style = rng.chance(9, 10) ? 1 : 0;
+    lay.style = rng.chance(9, 10) ? (rng.chance(2, 3) ? 1 : 2) : 0;
     lay.nfiles = (int)rng.range(1, thorough ? 6 : 4);
     if (gp.max_defs < 2) gp.max_defs = 2;
     gp.max_stmts = (int)rng.range(1, 5);
@@ -898,7 +914,9 @@ Plan gen_vm_plan(const std::string &prop, Rng &rng, long long sub, const std::st
     if (gp.max_defs < 2) gp.max_defs = 2;
     mode = "to_end";
   } else if (prop == "C17") {
+    gp.stop_in_callee = rng.chance(1, 3);
     mode = sub >= 0 && rng.chance(1, 3) ? "reset_enum" : "history";
+    if (mode == "history" && rng.chance(1, thorough ? 8 : 40)) mode = "enum_short";
     heavy = true;
   } else if (prop == "C19") {
     gp.call_heavy = true;
@@ -910,6 +928,7 @@ Plan gen_vm_plan(const std::string &prop, Rng &rng, long long sub, const std::st
     mode = "to_end";
   }
 
+  if (mode == "enum_short") { gp.max_stmts = (int)rng.range(1, 3); gp.max_defs = (int)rng.range(0, 1); gp.max_depth = 1; gp.macros = 0; lay.nfiles = 1; }
   Ast ast = generate_ast(rng, gp);
 
   if (prop == "C16" && !ast.defs.empty() && rng.chance(1, 2)) {
@@ -970,6 +989,26 @@ Plan gen_vm_plan(const std::string &prop, Rng &rng, long long sub, const std::st
     Op b; b.k = "bp"; b.a = (long long)rng.below(64); b.b = 1; p.ops.push_back(b);
     Op e; e.k = "execall"; e.a = 2000; p.ops.push_back(e);
     Op st; st.k = "step"; st.a = 3; p.ops.push_back(st);
+  } else if (mode == "enum_short") {
+    // small scope: ALL histories up to a bounded length over a small alphabet on a tiny program; `sub` is the history
+    static const char *A[] = {"step:1", "step:3", "exec:1", "bp:0:1", "bp:0:0", "bp:1:1", "clear", "stepmode:1", "stepmode:0", "reset", "inspect"};
+    const long long NA = 11;
+    int maxlen = thorough ? 3 : 2;
+    long long total = 0, pw = 1;
+    for (int l = 1; l <= maxlen; l++) { pw *= NA; total += pw; }
+    long long idx = sub % total;
+    int len = 1; pw = NA;
+    while (idx >= pw) { idx -= pw; pw *= NA; len++; }
+    for (int i = 0; i < len; i++) {
+      std::string spec = A[idx % NA]; idx /= NA;
+      Op o; size_t c1 = spec.find(':');
+      o.k = spec.substr(0, c1);
+      if (c1 != std::string::npos) { o.a = atoll(spec.c_str() + c1 + 1); size_t c2 = spec.find(':', c1 + 1); if (c2 != std::string::npos) o.b = atoll(spec.c_str() + c2 + 1); }
+      p.ops.push_back(o);
+    }
+    Op e; e.k = "execall"; e.a = 30; p.ops.push_back(e);
+    p.knobs["enum_total"] = total;
+    p.knobs["golden_steps"] = 600;
   } else if (mode == "reset_enum") {
     // enumerate the reset instant: sub = number of instructions before the reset
     random_history(rng, p.ops, (int)rng.range(0, 3), false, true);
